@@ -738,9 +738,12 @@ func cmdCheck(args []string) int {
 				"traces_validated_against_impl counts path witnesses (solver models of completed paths) executed both natively (real build of /repo) and by the engine in concrete mode with identical assertion outcomes, cover points and observations",
 		},
 	}
-	os.MkdirAll(filepath.Join(verifDir, "evidence"), 0o755)
-	b, _ := json.MarshalIndent(ev, "", " ")
-	os.WriteFile(filepath.Join(verifDir, "evidence", prop+".json"), b, 0o644)
+	// (trial runs against a scratch tree - seeded changes, refactorings - leave the evidence alone)
+	if os.Getenv("RUXSYM_NO_EVIDENCE") == "" {
+		os.MkdirAll(filepath.Join(verifDir, "evidence"), 0o755)
+		b, _ := json.MarshalIndent(ev, "", " ")
+		os.WriteFile(filepath.Join(verifDir, "evidence", prop+".json"), b, 0o644)
+	}
 	fmt.Printf("property=%s tier=%s jobs=%d paths=%d instrs=%d obligations=%d discharged=%d violated=%d(reproduced %d, known %d, spurious %d) undischarged=%d solver_queries=%d solver_s=%.1f wall_s=%.1f\n",
 		prop, tier, len(jobs), total.Paths, total.Instrs, total.Obligations, total.Discharged, total.Violated, nViol, nKnown, nSpurious,
 		len(undis), totQueries, totSolverTime.Seconds(), time.Since(t0).Seconds())
